@@ -382,7 +382,7 @@ TurnEnd ==
 
 StepEnd ==
     /\ phase = "turn" /\ cur = 0 /\ todo = <<>>
-    /\ P_StepEnd(PollsV, SentV)
+    /\ P_StepEnd(PollsV, SentV, "ok")
     /\ phase' = "ctl"
     /\ last' = [a |-> "step_end", polls |-> PollsV, sent |-> SentV]
     /\ UNCHANGED <<todo, cur, hs, lst, ud, cn, net, oc, nid, ndg, nflt, wk, dlv, nlat>>
